@@ -62,7 +62,7 @@ ASSUMPTIONS = ['scipy.signal.convolve2d (direct sums) is the reference convoluti
 def plan(tier):
     if tier == 'thorough':
         return dict(shards=16, cases=12000, timeout=2400, budget_s=600)
-    return dict(shards=8, cases=560, timeout=600, budget_s=60)
+    return dict(shards=8, cases=560, timeout=600, budget_s=50)
 
 
 def selftest():
